@@ -1,6 +1,7 @@
 # C01 ReliableOrdered: cursor / dedupe / id / release-ownership typestate (necessary conditions only)
 import re
 from sa.rules import *
+import rules.wave3 as W3
 import rules.shared as shared
 
 RR, SR = "channel::reliable::ReceiveChannelReliable", "channel::reliable::SendChannelReliable"
@@ -64,7 +65,8 @@ def rules(t):
         r.site(g)
         if not t.is_field(t.arg(g, 1), "next_reliable_message_id"): r.bad("key", g, "message stored under a key that is not the id counter")
         st = list(t.stores(SR, "next_reliable_message_id", sm))
-        if not st or not sm.dominates(g.bb, st[0].bb): r.bad("order", g, "id counter advanced before the message is stored under it")
+        after = [x for x in st if sm.dominates(g.bb, x.bb) and (x.bb != g.bb or x.idx > g.idx)]
+        if not st or not after or any(sm.dominates(x.bb, g.bb) and (x.bb != g.bb or x.idx < g.idx) for x in st): r.bad("order", g, "id counter advanced before the message is stored under it")
     out.append(r)
     r = RuleResult("C01.e", "unacked messages are released only by the two ack handlers, which only process_packet calls", floor=4)
     for g in t.effects("unacked_messages", SHRINK):
@@ -107,4 +109,7 @@ def rules(t):
     for v in rr.violations: v.rule = "C01.i"; v.key = "C01.i|" + v.key.split("|", 1)[1]
     out.append(rr)
     out.append(shared.range_algebra(t, "C01.j"))
+    out.append(W3.wire_narrowing(t, "C01.k"))
+    import rules.shared as _sh
+    out.append(_sh.sent_record_rule(t, "C01.l"))
     return out
